@@ -669,3 +669,6 @@ PROPS["C20"]["rules"].append({"run": rules_layout.run_typeiddest, "floor": 12})
 PROPS["C20"]["explanation"] += " TYPEIDDEST: where the type id that reaches src->convert(src, type, dest) comes from mpt_<kind>_typeid() (nearest dominating assignment), dest points to a struct mpt_<kind>, for mpt_<kind>_pointer_typeid() to a pointer to one."
 PROPS["C20"]["rules"].append({"run": rules_layout.run_typeidname, "floor": 5})
 PROPS["C20"]["explanation"] += " TYPEIDNAME: each specialisation type_properties<K>::id / <K *>::id of the layout classes returns mpt_<K>_typeid() / mpt_<K>_pointer_typeid()."
+for _pid, _spec in PROPS.items():
+    _spec["rules"].append({"run": rules_path.run_deadcall, "floor": 60, "scope": "anchor-dirs"})
+    _spec["explanation"] += " DEADCALL (anchor directories): no call whose result is ignored reaches, in the interval analysis of its callee with the caller's arguments, only the callee's refusing returns (a pointer / bool function with other returns; forwarders of the form return g(..) ? true : false are followed; calls that hand over objects by value or reference are not judged)."
